@@ -165,6 +165,8 @@ pub async fn scenario(line: &str) -> String {
     "hostile" => hostile(&p).await,
     "reqrace" => reqrace(&p).await,
     "reprace" => reprace(&p).await,
+    "reqstale" => reqstale(&p).await,
+    "stream" => stream(&p).await,
     "faultlocal" => faultlocal(&p).await,
     _ => "bad-op".to_string(),
   }
@@ -679,10 +681,83 @@ async fn reqrace(p: &[&str]) -> String {
   let _ = tokio::time::timeout(Duration::from_secs(5), req.close()).await;
   let _ = tokio::time::timeout(Duration::from_secs(5), router.close()).await;
   let _ = tokio::time::timeout(Duration::from_secs(5), ctx.term()).await;
+  if let Some(path) = target.strip_prefix("ipc://") {
+    let _ = std::fs::remove_file(path);
+  }
   match violation {
     Some(v) => format!("ORACLE-FAIL key=req-alternation {}", v),
     None if served == 0 => "ORACLE-FAIL key=req-alternation-vacuous no exchange completed".into(),
     None => "alternation=ok".into(),
+  }
+}
+
+/// `reqstale <tcp|ipc>`
+/// Two tasks call recv_multipart() during the same exchange; the first reply is taken by one of them, the
+/// other keeps waiting and later takes the reply of the NEXT exchange. After that successful receive the REQ
+/// must accept a send again (the legal next operation), and a recv must be refused.
+async fn reqstale(p: &[&str]) -> String {
+  let transport = p[1];
+  let ctx = Context::new().expect("ctx");
+  let rep = ctx.socket(SocketType::Rep).unwrap();
+  let _ = set_i32(&rep, o::RCVTIMEO, 2000).await;
+  let ep = if transport == "tcp" { "tcp://127.0.0.1:0".to_string() } else { format!("ipc:///tmp/{}.sock", unique_name("rzmq-verif-reqstale")) };
+  if rep.bind(&ep).await.is_err() {
+    return "setup-error bind".into();
+  }
+  let target = if transport == "tcp" { last_endpoint(&rep).await } else { ep };
+  let req = ctx.socket(SocketType::Req).unwrap();
+  let _ = set_i32(&req, o::SNDTIMEO, 1000).await;
+  if req.connect(&target).await.is_err() {
+    return "setup-error connect".into();
+  }
+  tokio::time::sleep(Duration::from_millis(150)).await;
+  let out = async {
+    req.send(Msg::from_static(b"q0")).await.map_err(|e| format!("send0 {}", err_class(&e)))?;
+    let (r1, r2) = (req.clone(), req.clone());
+    let mut t1 = tokio::spawn(async move { r1.recv_multipart().await.map(|_| ()) });
+    let mut t2 = tokio::spawn(async move { r2.recv_multipart().await.map(|_| ()) });
+    tokio::time::sleep(Duration::from_millis(50)).await; // both are waiting inside exchange 0
+    rep.recv().await.map_err(|e| format!("rep-recv0 {}", err_class(&e)))?;
+    rep.send(Msg::from_static(b"a0")).await.map_err(|e| format!("rep-send0 {}", err_class(&e)))?;
+    // exactly one of the two returns with the reply
+    let first_is_t1 = tokio::select! {
+      r = &mut t1 => { r.map_err(|_| "join".to_string())?.map_err(|e| format!("recv-a0 {}", err_class(&e)))?; true }
+      r = &mut t2 => { r.map_err(|_| "join".to_string())?.map_err(|e| format!("recv-a0 {}", err_class(&e)))?; false }
+    };
+    let other = if first_is_t1 { t2 } else { t1 };
+    tokio::time::sleep(Duration::from_millis(30)).await;
+    req.send(Msg::from_static(b"q1")).await.map_err(|e| format!("send1 {}", err_class(&e)))?;
+    rep.recv().await.map_err(|e| format!("rep-recv1 {}", err_class(&e)))?;
+    rep.send(Msg::from_static(b"a1")).await.map_err(|e| format!("rep-send1 {}", err_class(&e)))?;
+    // the reply of exchange 1 is consumed by the late waiter of exchange 0 (or it failed earlier: then nobody
+    // has received a1 yet and a fresh recv gets it)
+    match tokio::time::timeout(Duration::from_millis(1500), other).await {
+      Ok(Ok(Ok(()))) => {}
+      Ok(Ok(Err(_))) => {
+        req.recv_multipart().await.map_err(|e| format!("recv-a1 {}", err_class(&e)))?;
+      }
+      _ => return Err("late waiter never returned".to_string()),
+    }
+    // a successful receive happened: recv must now be refused and send accepted
+    match tokio::time::timeout(Duration::from_millis(300), req.recv_multipart()).await {
+      Ok(Err(ZmqError::InvalidState(_))) => {}
+      Ok(Ok(_)) => return Err("a second recv succeeded after the reply was consumed".to_string()),
+      Ok(Err(e)) => return Err(format!("recv after reply: {}", err_class(&e))),
+      Err(_) => return Err("recv after the reply was consumed is accepted and waits (state still ExpectingReply)".to_string()),
+    }
+    req.send(Msg::from_static(b"q2")).await.map_err(|e| format!("send after a consumed reply refused: {}", err_class(&e)))?;
+    Ok::<(), String>(())
+  }
+  .await;
+  let _ = tokio::time::timeout(Duration::from_secs(5), req.close()).await;
+  let _ = tokio::time::timeout(Duration::from_secs(5), rep.close()).await;
+  let _ = tokio::time::timeout(Duration::from_secs(5), ctx.term()).await;
+  if let Some(path) = target.strip_prefix("ipc://") {
+    let _ = std::fs::remove_file(path);
+  }
+  match out {
+    Ok(()) => "alternation=ok".into(),
+    Err(e) => format!("ORACLE-FAIL key=req-stale-receive {}", e),
   }
 }
 
@@ -780,5 +855,201 @@ async fn reprace(p: &[&str]) -> String {
   }
   let _ = tokio::time::timeout(Duration::from_secs(5), rep.close()).await;
   let _ = tokio::time::timeout(Duration::from_secs(5), ctx.term()).await;
+  if let Some(path) = target.strip_prefix("ipc://") {
+    let _ = std::fs::remove_file(path);
+  }
   verdict
+}
+
+
+/// `stream <opts> <sender cfg> <receiver cfg> <messages>`
+/// One sender socket connects to one receiver socket and sends the listed messages as fast as it can; the
+/// receiver reads them at its own pace. opts: `tr=tcp|ipc|inproc`, `rt=ct|mt` (runtime flavour; the scenario
+/// gets a runtime of its own), `when=after|before` (first send after both handshakes succeeded / right after
+/// connect() returned), `pace=<ms>` (receiver sleeps that long after every message), `side=bind|connect`
+/// (which role the SENDER takes). Result: `delivered=<n>:<digest>` when every accepted message arrived exactly
+/// once, unmodified and in order (digest over the canonical rendering of all of them), else an ORACLE-FAIL line.
+async fn stream(p: &[&str]) -> String {
+  let opts = parse_kv(p[1]);
+  let scfg = parse_kv(p[2]);
+  let rcfg = parse_kv(p[3]);
+  let spec = p[4].to_string();
+  let mt = opts.get("rt").map(|v| v == "mt").unwrap_or(false);
+  let (tx, rx) = tokio::sync::oneshot::channel();
+  std::thread::spawn(move || {
+    let rt = if mt {
+      tokio::runtime::Builder::new_multi_thread().worker_threads(3).enable_all().build().unwrap()
+    } else {
+      tokio::runtime::Builder::new_current_thread().enable_all().build().unwrap()
+    };
+    let r = rt.block_on(async move {
+      match tokio::time::timeout(Duration::from_secs(60), stream_inner(opts, scfg, rcfg, spec)).await {
+        Ok(r) => r,
+        Err(_) => "ORACLE-FAIL key=stream-hang scenario did not finish in 60 s".to_string(),
+      }
+    });
+    let _ = tx.send(r);
+    rt.shutdown_background();
+  });
+  rx.await.unwrap_or_else(|_| "PANIC".to_string())
+}
+
+async fn stream_inner(opts: HashMap<String, String>, scfg: HashMap<String, String>, rcfg: HashMap<String, String>, spec: String) -> String {
+  let transport = opts.get("tr").cloned().unwrap_or_else(|| "tcp".into());
+  let when_after = opts.get("when").map(|v| v == "after").unwrap_or(true);
+  let pace = Duration::from_millis(opts.get("pace").and_then(|v| v.parse().ok()).unwrap_or(0));
+  let sender_binds = opts.get("side").map(|v| v == "bind").unwrap_or(false);
+  let msgs: Vec<Vec<Msg>> = parse_batch(&spec);
+  let ctx = Context::new().expect("ctx");
+  let snd = match make_socket(&ctx, &scfg).await {
+    Ok(s) => s,
+    Err(e) => return format!("setup-error sender {}", err_class(&e)),
+  };
+  let rcv = match make_socket(&ctx, &rcfg).await {
+    Ok(s) => s,
+    Err(e) => return format!("setup-error receiver {}", err_class(&e)),
+  };
+  let sty = scfg.get("type").cloned().unwrap_or_default();
+  let rty = rcfg.get("type").cloned().unwrap_or_default();
+  if !scfg.contains_key("sndtimeo") {
+    let _ = set_i32(&snd, o::SNDTIMEO, 10000).await;
+  }
+  let ms = snd.monitor_default().await.ok();
+  let mr = rcv.monitor_default().await.ok();
+  let ep = match transport.as_str() {
+    "tcp" => "tcp://127.0.0.1:0".to_string(),
+    "ipc" => format!("ipc:///tmp/{}.sock", unique_name("rzmq-verif-stream")),
+    _ => format!("inproc://{}", unique_name("stream")),
+  };
+  let (binder, connector) = if sender_binds { (&snd, &rcv) } else { (&rcv, &snd) };
+  if let Err(e) = binder.bind(&ep).await {
+    return format!("setup-error bind {}", err_class(&e));
+  }
+  let target = if transport == "tcp" { last_endpoint(binder).await } else { ep.clone() };
+  if let Err(e) = connector.connect(&target).await {
+    return format!("setup-error connect {}", err_class(&e));
+  }
+  if when_after {
+    if transport != "inproc" {
+      if let (Some(a), Some(b)) = (ms.as_ref(), mr.as_ref()) {
+        let (ra, rb) = tokio::join!(wait_handshake(a, Duration::from_secs(3)), wait_handshake(b, Duration::from_secs(3)));
+        if ra != "ok" || rb != "ok" {
+          return "setup-error handshake".into();
+        }
+      }
+    }
+    tokio::time::sleep(Duration::from_millis(60)).await;
+  }
+  // ROUTER sender: address the (only) peer by the identity the receiver was given
+  let dest: Option<Vec<u8>> = if sty == "ROUTER" { rcfg.get("id").map(|v| parse_bytes(v)) } else { None };
+  let total = msgs.len();
+  let expected: Vec<String> = msgs.iter().map(|m| show_msg(m)).collect();
+  let snd2 = snd.clone();
+  let sender = tokio::spawn(async move {
+    let mut accepted = Vec::new();
+    for (i, m) in msgs.into_iter().enumerate() {
+      let mut frames = m;
+      if let Some(d) = dest.as_ref() {
+        let mut idf = Msg::from_vec(d.clone());
+        idf.set_flags(rzmq::MsgFlags::MORE);
+        frames.insert(0, idf);
+      }
+      let r = if frames.len() == 1 && !matches!(sty.as_str(), "ROUTER") {
+        snd2.send(frames.remove(0)).await
+      } else {
+        snd2.send_multipart(frames).await
+      };
+      match r {
+        Ok(()) => accepted.push(i),
+        Err(e) => return (accepted, Some(format!("send #{} {}", i, err_class(&e)))),
+      }
+    }
+    (accepted, None)
+  });
+  let strip = rty == "ROUTER";
+  let mut got: Vec<String> = Vec::new();
+  let t0 = Instant::now();
+  let mut sender = sender;
+  let mut send_result: Option<(Vec<usize>, Option<String>)> = None;
+  let mut idle_since: Option<Instant> = None;
+  loop {
+    if got.len() >= total + 4 || t0.elapsed() > Duration::from_secs(45) {
+      break;
+    }
+    if send_result.is_none() && sender.is_finished() {
+      send_result = (&mut sender).await.ok();
+    }
+    if let Some((acc, _)) = send_result.as_ref() {
+      if got.len() >= acc.len() {
+        // everything accepted has arrived: linger a little for duplicates
+        match idle_since {
+          None => idle_since = Some(Instant::now()),
+          Some(t) if t.elapsed() > Duration::from_millis(150) => break,
+          _ => {}
+        }
+      }
+    }
+    match tokio::time::timeout(Duration::from_millis(100), rcv.recv_multipart()).await {
+      Ok(Ok(mut frames)) => {
+        if strip && !frames.is_empty() {
+          frames.remove(0);
+        }
+        got.push(show_msg(&frames));
+        idle_since = None;
+        if !pace.is_zero() {
+          tokio::time::sleep(pace).await;
+        }
+      }
+      Ok(Err(ZmqError::Timeout)) | Err(_) => {
+        if let Some((_, _)) = send_result.as_ref() {
+          match idle_since {
+            None => idle_since = Some(Instant::now()),
+            Some(t) if t.elapsed() > Duration::from_millis(2500) => break,
+            _ => {}
+          }
+        }
+      }
+      Ok(Err(e)) => {
+        got.push(format!("E({})", err_class(&e)));
+        break;
+      }
+    }
+  }
+  if send_result.is_none() {
+    sender.abort();
+    send_result = Some((Vec::new(), Some("sender still blocked at the end".into())));
+  }
+  let (accepted, send_err) = send_result.unwrap();
+  let want: Vec<&String> = accepted.iter().map(|i| &expected[*i]).collect();
+  let _ = tokio::time::timeout(Duration::from_secs(5), snd.close()).await;
+  let _ = tokio::time::timeout(Duration::from_secs(5), rcv.close()).await;
+  let _ = tokio::time::timeout(Duration::from_secs(5), ctx.term()).await;
+  if transport == "ipc" {
+    let _ = std::fs::remove_file(ep.trim_start_matches("ipc://"));
+  }
+  if let Some(e) = send_err {
+    return format!("ORACLE-FAIL key=stream-send-refused {} (accepted {} of {}, delivered {})", e, accepted.len(), total, got.len());
+  }
+  let same = want.len() == got.len() && want.iter().zip(got.iter()).all(|(a, b)| *a == b);
+  if !same {
+    let first = want.iter().zip(got.iter()).position(|(a, b)| *a != b).unwrap_or(want.len().min(got.len()));
+    let kind = {
+      let mut a: Vec<&String> = want.clone();
+      let mut b: Vec<&String> = got.iter().collect();
+      a.sort();
+      b.sort();
+      if a == b { "reordered" } else if got.len() < want.len() { "lost" } else if got.len() > want.len() { "duplicated" } else { "corrupted" }
+    };
+    return format!(
+      "ORACLE-FAIL key=stream-fifo {} accepted={} delivered={} first-diff=#{} want={} got={}",
+      kind,
+      want.len(),
+      got.len(),
+      first,
+      want.get(first).map(|s| s.as_str()).unwrap_or("-"),
+      got.get(first).map(|s| s.as_str()).unwrap_or("-")
+    );
+  }
+  let joined = got.join(" ");
+  format!("delivered={}:{:016x}", got.len(), fnv64(joined.as_bytes()))
 }
